@@ -113,7 +113,17 @@ func runOne(t *testing.T, sc *Scenario, seed uint64, variant, tier string, rep *
 				}
 			}
 			uuid.SetRand(&rngReader{r: rand.New(rand.NewPCG(seed, 0x1d))})
+			traceClose := func() {}
+			if dir := os.Getenv("VERIF_TRACE_DIR"); dir != "" && simrt.TraceHook == nil {
+				// determinism hunts: one "step thread@site" line per scheduler step
+				if f, err := os.Create(fmt.Sprintf("%s/%s-%d-%d.trace", dir, sc.Name, seed, os.Getpid())); err == nil {
+					w := bufio.NewWriter(f)
+					simrt.TraceHook = func(step int, th string, site int32) { fmt.Fprintf(w, "%d %s@%d\n", step, th, site) }
+					traceClose = func() { simrt.TraceHook = nil; w.Flush(); f.Close() }
+				}
+			}
 			sim := simrt.Run(cfg, func() { sc.Run(c) })
+			traceClose()
 			uuid.SetRand(nil)
 			c.Sim = sim
 			aborted := sim.Err != nil
